@@ -394,13 +394,17 @@ def value_cap(cls):
     return 1 << 70
 
 
-def candidate_ints():
+def candidate_ints(full=True):
+    """Boundary candidates: 0, small values, +-2^k and +-2^k+-1, aligned values just inside 2^k.
+    The reduced list (quick tier) keeps every k up to 33 and samples the exponents above (the
+    large ones only tell whether an operand is range-checked at all)."""
     vals = {0, 1, -1, 2, -2, 3, -3, 5, 6, 7, 10, 12, 20, 24, 100, -100}
-    for k in range(1, 66):
+    ks = range(1, 66) if full else list(range(1, 34)) + [40, 48, 56, 63, 64, 65]
+    for k in ks:
         for d in (-1, 0, 1):
             vals.add((1 << k) + d)
             vals.add(-(1 << k) + d)
-    for k in range(2, 33):  # aligned values just inside a power of two
+    for k in range(2, 33 if full else 22):  # aligned values just inside a power of two
         for a in (2, 4, 8):
             vals.add((1 << k) - a)
             vals.add(-(1 << k) + a)
@@ -408,6 +412,16 @@ def candidate_ints():
 
 
 CANDIDATES = candidate_ints()
+
+
+def configure(thorough):
+    """Select the candidate list for the tier; call before any probing (the probes are cached)."""
+    global CANDIDATES
+    CANDIDATES = candidate_ints(full=bool(thorough))
+    _probe_full.cache_clear()
+    probe.cache_clear()
+    probe_reps.cache_clear()
+    base_desc.cache_clear()
 _SEED_VALUES = (0, 1, 2, 4, 8, 16, 3, 32, 64, 256, 5)
 
 
